@@ -1,4 +1,5 @@
 import MiniconfVerif.Lemmas.PackedPath
+import MiniconfVerif.Lemmas.TextKeys
 
 /-! # C06 — type-level metadata is exact and sufficient for sizing key buffers
 
@@ -62,6 +63,34 @@ theorem buffers_suffice (s : Schema) (hwf : s.WF) (hsm : s.Small) (p : List Nat)
   rw [this]
   unfold idxWalk
   cases hl : t.isLeaf <;> simp
+
+/-- the length weight of any node path (leaf or internal) is at most `max_length` -/
+theorem node_len_le_max (s t : Schema) (hwf : s.WF) (p : List Nat) (ht : s.at? p = some t) :
+    pathW Wlen s p ≤ s.meta.maxLength := by
+  have htwf := wf_at? s t p hwf ht
+  have hleaf := at?_append_some s t .leaf p t.firstLeaf ht (at?_firstLeaf t htwf)
+  have hm := at?_leaf_mem _ s hleaf
+  have := pathW_le Wlen _ s hm
+  rw [pathW_append Wlen p s t _ ht] at this
+  rw [meta_len]; omega
+
+/-- **… and a path buffer of `max_length` plus one separator per level holds the `Path` of every
+node**: with that capacity the `Path` target's callbacks never fail (no `Inner`/capacity error),
+for every separator not occurring in a key text -/
+theorem path_buffer_suffices (s t : Schema) (hwf : s.WF) (S : Char) (p : List Nat) (ht : s.at? p = some t)
+    (hfree : ∀ k ∈ keyTexts s p, S ∉ k) :
+    tgtAt s (.path S [] (s.meta.maxLength + s.meta.maxDepth * S.utf8Size)) p =
+      .path S (renderPath S (keyTexts s p)) (s.meta.maxLength + s.meta.maxDepth * S.utf8Size) := by
+  have hlen := byteLen_renderPath S p s t hwf ht
+  have h1 := node_len_le_max s t hwf p ht
+  have h2 : p.length ≤ s.meta.maxDepth := by
+    rw [meta_depth s hwf]; have := at?_depth p s t ht; omega
+  have hcap : PathIter.byteLen (renderPath S (keyTexts s p)) ≤ s.meta.maxLength + s.meta.maxDepth * S.utf8Size := by
+    rw [hlen]
+    have := Nat.mul_le_mul_right S.utf8Size h2
+    omega
+  have := cbAlong_path S _ p s t [] ht hfree (by simpa [PathIter.byteLen] using hcap)
+  simp [tgtAt, this]
 
 /-! ## non-vacuity -/
 def ex : Schema := .node (.named ["foo", "bar", "baz"]) [.leaf, .array 3 .leaf, .leaf]
